@@ -1063,9 +1063,9 @@ SchedRunOK(e, idx) ==
 SweepEvOK(e, idx) ==
   /\ Chk("OUT", idx, OutOK(e))
   /\ Has(e, "SWEEP") =>
-       LET inputs == InputEdges(e.subj, e.clip) IN
-       /\ Chk("S5", idx, S5Scanlines(e.subj, e.clip, e.beams))
-       /\ Chk("S1", idx, \A k \in 1..Len(e.beams) : S1Membership(inputs, e.beams[k]))
+       LET inputs == InputEdges(e.subj, e.clip)  openIn == OpenEdgesOf(e.open) IN
+       /\ Chk("S5", idx, S5Scanlines(e.subj \o e.open, e.clip, e.beams))
+       /\ Chk("S1", idx, \A k \in 1..Len(e.beams) : S1Membership(inputs, openIn, e.beams[k]))
        /\ Chk("S2", idx, \A k \in 1..Len(e.beams) : S2Order(e.beams[k]))
        /\ Chk("S3", idx, \A k \in 1..Len(e.beams) : S3Winding(e.fr, e.beams[k]))
        /\ Chk("S4", idx, \A k \in 1..Len(e.beams) : S4Contribution(e.ct, e.fr, e.beams[k]))
